@@ -11,7 +11,7 @@ from . import gen, tabular as T
 
 def jobs_for(tier, rng):
     jobs = []
-    n = 60 if tier == "quick" else 400
+    n = 60 if tier == "quick" else 1500
     for k in range(n):
         PD = rng.choice([2, 4, 8, 16384])
         ne = rng.choice([1, 2, 3, 4])
